@@ -1,5 +1,6 @@
 """C11 - new -json: key set, key names and Marshal/Unmarshal round trip."""
 import json
+import re
 
 from vlib import core, newgen, pkgrun, xferleg
 from vlib.sexp import Q, dump
@@ -50,6 +51,9 @@ def sentinel_json(ty, j):
         return sentinel_json(ty[1:], j)
     if ty.startswith("[]"):
         return [sentinel_json(ty[2:], j)]
+    mm = re.match(r"\[(\d+)\](.*)$", ty)
+    if mm:
+        return [sentinel_json(mm.group(2), j)]      # an array: the first element carries the sentinel
     if ty.startswith("map[string]"):
         return {"a%d" % j: sentinel_json(ty[len("map[string]"):], j)}
     if ty == "string":
@@ -87,7 +91,7 @@ def gen_specs(ctx):
     n = ctx.n(200, 2000)
     for _ in range(n):
         getset = ctx.rng.random() < 0.75
-        s = g.top("T", getset_dirs=getset, json_tags=True, generic=0.05, maxfields=4, maxdepth=2, selfembed=0.05)
+        s = g.top("T", getset_dirs=getset, json_tags=True, generic=0.05, maxfields=4, maxdepth=2, selfembed=0.05, types_extra=newgen.EXTRA_TYPES_JSON)
         s["typedoc"] = ctx.rng.choice(TYPEDOCS) if getset and ctx.rng.random() < 0.35 else None
         for m in s["members"]:
             if m["k"] == "e" and getset and ctx.rng.random() < 0.4 and not s["tparams"]:
